@@ -35,6 +35,29 @@ def gen_case(rng, tier, k):
         bnet = common.g_compose(rng, extra_max=max(0, nmax - 4))
     else:
         bnet = common.g_mixed(rng, nmax=nmax, p_core=0.0)
+    if rng.random() < 0.35:
+        # the scenario of the property, directed: expand a little, compute attractor data on (mostly) stubs,
+        # then give them successors by one of the operations that can, then look at what is cached
+        r = rng.random()
+        if r < 0.4:
+            bnet = common.g_union(rng, nmax)
+        elif r < 0.6:
+            bnet = common.g_chains(rng, total_max=nmax, kind=rng.choice(["burst", "input", "maa"]))
+        first = rng.choice([["bfs", 0, 0, None], ["bfs", 0, 0, None], ["bfs", 0, 1, None], ["frontier", rng.randrange(1 << 30), rng.randint(1, 4), 0.0, 0.0],
+                            ["dfs", 0, rng.randint(0, 1), None], ["min", 0, rng.randint(1, 4), False], ["none"]])
+        ops = [] if first == ["none"] else [first]
+        for _ in range(rng.randint(1, 4)):
+            ops.append([rng.choice(["seedsq", "seedsq", "setsq", "cands"]), rng.randrange(64)])
+        if rng.random() < 0.25:
+            ops.append(["reclaim"])
+        give = rng.choice([["scc", True], ["scc", False], ["scc", False], ["blockx", True, None, True, False], ["blockx", False, None, True, False],
+                           ["blockx", True, None, False, False], ["blockx", False, None, False, False], ["skiprem"], ["skipmin", rng.randrange(64)],
+                           ["min", 0, None, True], ["min", rng.randrange(64), None, False], ["aseeds", None], ["bfs", 0, None, None],
+                           ["dfs", rng.randrange(64), None, None], ["succ", rng.randrange(64)], ["target", [[rng.randrange(64), rng.randint(0, 1)]], None]])
+        ops.append(give)
+        for _ in range(rng.randint(0, 2)):
+            ops.append([rng.choice(["seedsq", "setsq"]), rng.randrange(64)])
+        return {"bnet": bnet, "ops": ops}
     ops = []
     for _ in range(rng.randint(2, 9 if tier == "quick" else 14)):
         r = rng.random()
